@@ -57,6 +57,14 @@ class Tree:
         es = [f'F:{C.hx(p)}:{C.hx(c)}' for p, c in self.files.items()] + [f'D:{C.hx(p)}' for p in self.dirs] + \
              [f'L:{C.hx(p)}:{C.hx(t)}' for p, t in self.links.items()]
         return f'tree {C.hx(self.root)} {C.hx(self.cwd)} ' + (','.join(es) if es else '-')
+    def clone(self):
+        """the same tree under a scratch root of its own (a harness process owns the directory of its tree: two processes never share one)"""
+        n = Tree(self.cwd)
+        n.files, n.dirs = dict(self.files), list(self.dirs)
+        n.links = {k: v.replace(self.root[1:], n.root[1:]) for k, v in self.links.items()}
+        for a, v in self.__dict__.items():
+            if a not in ('cwd', 'files', 'dirs', 'links', 'root', 'manifest', 'manifest_ok', 'setup_ok') and not a.startswith('_'): setattr(n, a, v)
+        return n
     def under_root(self):
         pre = self.cwd + b'/'
         return {p[len(pre):]: c for p, c in self.files.items() if p.startswith(pre)}
